@@ -16,6 +16,10 @@ Theorem C12_reader_order_pinned : reader_order = pinned_reader_order.
 Proof. exact reader_order_pinned. Qed.
 Theorem C12_int_reader_cases_pinned : int_reader_cases = pinned_int_reader_cases.
 Proof. exact int_reader_cases_pinned. Qed.
+Theorem C12_int_reader_guards_pinned : int_reader_guards = pinned_int_reader_guards.
+Proof. exact int_reader_guards_pinned. Qed.
+Theorem C12_chr_excepts_pinned : chr_excepts = pinned_chr_excepts.
+Proof. exact chr_excepts_pinned. Qed.
 Theorem C12_flavors_pinned : flavors = pinned_flavors.
 Proof. exact flavors_pinned. Qed.
 Theorem C12_reader_uses_pinned : reader_uses = pinned_reader_uses.
@@ -35,6 +39,13 @@ Theorem C12_int_literals_in_context : forall uni_digit b d ds seps k,
   read_int uni_digit (render_int b (d :: ds) seps ++ k)
   = RTok (TInt (int_value uni_digit b (d :: ds))) k.
 Proof. exact read_int_render. Qed.
+
+(* beyond the limit (decimal only): a LexerError at the end of the literal, never a token *)
+Theorem C12_int_literals_too_large : forall uni_digit d ds seps k,
+  Forall (valid_digit uni_digit Dec) (d :: ds) -> stops uni_digit Dec k -> not_letter k ->
+  int_max_str_digits < len (d :: ds) ->
+  read_int uni_digit (render_int Dec (d :: ds) seps ++ k) = RErr EIntTooLarge k.
+Proof. exact read_int_too_large. Qed.
 
 Theorem C12_int_value_positional : forall uni_digit b ds d,
   int_value uni_digit b [] = 0 /\
@@ -71,6 +82,13 @@ Theorem C12_unicode_escapes : forall uni_digit d ds k,
   cp < 1114112 -> is_surrogate cp = false ->
   read_escape uni_digit (117 :: 123 :: d :: ds ++ 125 :: k) = EOk (utf8_encode cp) k.
 Proof. exact unicode_escape_value. Qed.
+
+Theorem C12_unicode_escapes_too_large : forall uni_digit d ds k,
+  Forall (hex_valid uni_digit) (d :: ds) ->
+  let cp := int_value uni_digit Hex (d :: ds) in
+  1114112 <= cp ->
+  read_escape uni_digit (117 :: 123 :: d :: ds ++ 125 :: k) = EErr (EBadCodepoint cp) k.
+Proof. exact unicode_escape_too_large. Qed.
 
 Theorem C12_surrogates_rejected : forall cp r, is_surrogate cp = true ->
   encode_escaped cp r = EErr (ESurrogate cp) r /\ encode_raw cp r = ECrash CEncodeRaw.
@@ -214,16 +232,20 @@ Theorem C12_blank_separates : forall uni_space uni_word uni_digit t k,
   follow_ok uni_word uni_digit t k = true.
 Proof. exact follow_ok_blank. Qed.
 
-(* ---- hidc behaviour outside its LexerError discipline, reproduced by the faithful model ---- *)
-Example C12_leak_overflow : snd (lex_text no_space no_word no_digit
-         [34; 92; 117; 123; 56; 48; 48; 48; 48; 48; 48; 48; 125; 34]) = OCrash COverflowChr.
-Proof. exact leak_overflow_witness. Qed.
+(* ---- error discipline: the two former leaks are LexerErrors with kind and position; the one
+   leak that is left (lone surrogate in the source str) is reproduced by the faithful model ---- *)
+Example C12_huge_codepoint_is_lexer_error :
+  lex_text no_space no_word no_digit
+    [34; 92; 117; 123; 56; 48; 48; 48; 48; 48; 48; 48; 125; 34]
+  = ([], OErr (EBadCodepoint 2147483648) 0 13).
+Proof. exact huge_codepoint_is_lexer_error. Qed.
+Example C12_long_decimal_is_lexer_error :
+  lex_text no_space no_word no_digit (repeat 49 (Z.to_nat 4301)) = ([], OErr EIntTooLarge 0 4301)
+  /\ snd (lex_text no_space no_word no_digit (repeat 49 (Z.to_nat 4300))) = ODone (0, 4300).
+Proof. exact long_decimal_is_lexer_error. Qed.
 Example C12_leak_raw_surrogate :
   snd (lex_text no_space no_word no_digit [34; 55296; 34]) = OCrash CEncodeRaw.
 Proof. exact leak_raw_surrogate_witness. Qed.
-Example C12_leak_int_digits :
-  snd (lex_text no_space no_word no_digit (repeat 49 (Z.to_nat 4301))) = OCrash CIntDigits.
-Proof. exact leak_int_digits_witness. Qed.
 
 (* the hypotheses of (e) are satisfiable: the concrete text of LexerProofs.ex_laid *)
 Example C12_layout_independence_sat :
@@ -240,17 +262,21 @@ Print Assumptions C12_enum_tokens_documented.
 Print Assumptions C12_regex_texts_pinned.
 Print Assumptions C12_reader_order_pinned.
 Print Assumptions C12_int_reader_cases_pinned.
+Print Assumptions C12_int_reader_guards_pinned.
+Print Assumptions C12_chr_excepts_pinned.
 Print Assumptions C12_flavors_pinned.
 Print Assumptions C12_reader_uses_pinned.
 Print Assumptions C12_escape_codes_standard.
 Print Assumptions C12_int_literals.
 Print Assumptions C12_int_literals_in_context.
+Print Assumptions C12_int_literals_too_large.
 Print Assumptions C12_int_value_positional.
 Print Assumptions C12_simple_escapes.
 Print Assumptions C12_byte_escapes.
 Print Assumptions C12_utf8_roundtrip.
 Print Assumptions C12_utf8_bytes.
 Print Assumptions C12_unicode_escapes.
+Print Assumptions C12_unicode_escapes_too_large.
 Print Assumptions C12_surrogates_rejected.
 Print Assumptions C12_string_literals.
 Print Assumptions C12_string_hex_roundtrip.
@@ -275,6 +301,6 @@ Print Assumptions C12_model_never_out_of_fuel.
 Print Assumptions C12_string_loop_never_out_of_fuel.
 Print Assumptions C12_blank_separates.
 Print Assumptions C12_layout_independence_sat.
-Print Assumptions C12_leak_overflow.
+Print Assumptions C12_huge_codepoint_is_lexer_error.
 Print Assumptions C12_leak_raw_surrogate.
-Print Assumptions C12_leak_int_digits.
+Print Assumptions C12_long_decimal_is_lexer_error.
